@@ -5,7 +5,7 @@ V = os.path.dirname(os.path.dirname(os.path.abspath(__file__)))
 props = [json.loads(l) for l in open(os.path.join(V, "properties.jsonl"))]
 ids = [p["id"] for p in props]
 
-CLAIMS = {f[:-5]: json.load(open(os.path.join(V, "claims", f))) for f in sorted(os.listdir(os.path.join(V, "claims"))) if f.endswith(".json") and json.load(open(os.path.join(V, "claims", f))).get("ready")}
+CLAIMS = {f[:-5]: json.load(open(os.path.join(V, "claims", f))) for f in sorted(os.listdir(os.path.join(V, "claims"))) if f.endswith(".json") and f[:-5] in open(os.path.join(V, "claims", "READY")).read().split()}
 NA_REASON = "check not built yet in this round (planned, see DESIGN.md §10); nothing is claimed"
 
 checks = []
